@@ -587,7 +587,10 @@ func (l *modLayout) tok(s string, plain bool) string {
 	return s
 }
 
-var modHosts = []string{"example.com", "github.com/user", "golang.org/x", "rsc.io", "k8s.io", "go.uber.org", "example.org/a/b", "h.example"}
+// Hosts and keys that merely START with a directive keyword ("modules.example.com", "modulecache=1") are
+// ordinary tokens; a line scanner that matches keywords as prefixes goes wrong on them.
+var modHosts = []string{"example.com", "github.com/user", "golang.org/x", "rsc.io", "k8s.io", "go.uber.org", "example.org/a/b", "h.example",
+	"modules.example.com", "modulegen.example.org", "module.example", "requires.example.com", "goproxy.example", "retracted.example"}
 var modNames = []string{"m", "tools", "quote", "repo", "pkg-x", "a_b", "z9", "Mixed", "x.y", "mod", "v", "vv2", "cmd"}
 var modExoticPaths = []string{"example.com/a b", "example.com/a\"q", "example.com/(paren)", "ex.com/a//b", "ex.com/a/*b", "世界.com/m", "ex.com/a,b",
 	"ex.com/[x]", "ex.com/a\tb", "ex.com/\x00z", "ex.com/it's", "ex.com/`bq`", "ex.com/\xffbad", "ex.com/{c}", "ex.com/nb\u00a0sp", "ex.com/e\u0301",
@@ -854,7 +857,7 @@ func (d *ModDoc) replaceItems(l *modLayout, o ModOpts, n int) []modItem {
 func (d *ModDoc) godebugItems(l *modLayout, n int) []modItem {
 	var items []modItem
 	for i := 0; i < n; i++ {
-		kv := Pick(l.r, [][2]string{{"panicnil", "1"}, {"default", "go1.21"}, {"a", "b=c"}, {"x", ""}, {"httplaxcontentlength", "0"}, {"k.é", "v"}})
+		kv := Pick(l.r, [][2]string{{"panicnil", "1"}, {"default", "go1.21"}, {"a", "b=c"}, {"x", ""}, {"httplaxcontentlength", "0"}, {"k.é", "v"}, {"modulecache", "1"}, {"moduleproxy", "off"}, {"gone", "1"}})
 		d.Godebug = append(d.Godebug, kv)
 		items = append(items, modItem{toks: []string{kv[0] + "=" + kv[1]}})
 	}
